@@ -128,11 +128,22 @@ class Ephem(Speaker):
         """Get the frame of the first point"""
         return self._orbits[0].frame
 
+    def _reset_interp(self):
+        """Discard the interpolator, which holds a copy of the values of the points,
+        after those were changed in place. It is rebuilt, with the same settings,
+        at the next interpolation
+        """
+        if hasattr(self, "_interp"):
+            self._method = self._interp.method
+            self._order = self._interp.order
+            del self._interp
+
     @frame.setter
     def frame(self, frame):  # pragma: no cover
         """Change the frames of all points"""
         for orb in self:
             orb.frame = frame
+        self._reset_interp()
 
     @property
     def form(self):  # pragma: no cover
@@ -144,6 +155,7 @@ class Ephem(Speaker):
         """Change the form of all points"""
         for orb in self:
             orb.form = form
+        self._reset_interp()
 
     def interpolate(self, date):
         """Interpolate data at a given date
